@@ -43,8 +43,8 @@ FAMILY = {"mises": "mises", "signed_mises_trace": "mises", "signed_mises_abs_max
           "tresca": "tresca", "signed_tresca_trace": "tresca", "signed_tresca_abs_max_principal": "tresca",
           "max_principal": "principals", "min_principal": "principals", "abs_max_principal": "principals",
           "principals": "principals"}
-EXACT_SCALES = (0.5, 1.0, 2.0, 1000.0)      # integer components stay exact, sums of three stay exact
-DYADIC = (0.5, 1.0, 2.0)                    # additionally c*sqrt(x) == sqrt(c*c*x) bitwise
+EXACT_SCALES = (0.5, 1.0, 2.0, 1000.0, 2.0 ** -40, 2.0 ** 40)      # integer components stay exact, sums of three stay exact
+DYADIC = (0.5, 1.0, 2.0, 2.0 ** -40, 2.0 ** 40)                    # additionally c*sqrt(x) == sqrt(c*c*x) bitwise
 RTOL = 1e-9
 
 
@@ -76,8 +76,8 @@ def _rot(name):
 
 def _scales(tier):
     if tier == "quick":
-        return (1.0, 0.5, 2.0, 1000.0, 0.7)
-    return (1.0, 0.5, 2.0, 1000.0, 0.7, 1.0 / 3.0, 1e-6, 3.3e5)
+        return (1.0, 0.5, 2.0, 1000.0, 0.7, 2.0 ** -40)      # 2**-40: "any positive factor" includes ones that push everything below 1e-8
+    return (1.0, 0.5, 2.0, 1000.0, 0.7, 1.0 / 3.0, 1e-6, 3.3e5, 2.0 ** -40, 2.0 ** 40, 1e-11)
 
 
 def _plan(tier):
